@@ -109,10 +109,13 @@ CLAIMS = {
         'text': 'C09_and / C09_or / C09_not (coq/Prop_C09.v): on the model of syntax_query_logical_*.go the verdict list of A&&B, A||B, '
                 '!A denotes intersection, union, complement of the operands\' selections for EVERY member count (the length-1 '
                 'whole-match ambiguity included), well-formedness of lists is preserved (C09_wf_*); mirrored operators build the same '
-                'query when operand ranks differ (C09_mirror_*); <= / >= are < / > or == on validated numbers. Correspondence + direct '
+                'query when operand ranks differ (C09_mirror_ord, C09_mirror_eq) and, when the ranks are equal (two `$` paths, two literals), two '
+                'queries that select the same members (C09_mirror_equal_rank_ord for the four ordering pairs, C09_mirror_equal_rank_eq_paths '
+                'through C09_deep_equality_symmetric on documents with distinct keys, C09_mirror_equal_rank_eq_literals); <= / >= are < / > or == '
+                'on validated numbers. Correspondence + direct '
                 'oracle: families of related filters on containers of distinct members must satisfy the set identities on the real library.',
         'note': NOTE_COMMON + ' The theorems assume good states and well-formed operand lists, which C03_invariant establishes for '
-                'well-formed trees. Mirror duality for operands of equal rank is covered by the correspondence/oracle only.',
+                'well-formed trees. The equal-rank == duality between paths assumes the two values are decoded JSON (distinct keys, no foreign Go value).',
         'technique': 'Coq proof (list-level algebra bridged to the compute function) + relational oracle + correspondence'},
     'C10': {
         'text': 'C10_decode_invariant / C10_path_decode_invariant (coq/Prop_C10.v, SpecDecode.v), on the specification the model refines '
